@@ -7,8 +7,9 @@
     [Stabilize] / [ParallelStabilize] is a straight-line program of atomic actions; any
     number of threads run it again and again under any interleaving.  The program in force
     is NOT written by hand: [cmd/statusextract] regenerates it from /repo's Go source on
-    every run (coq/run/status_prog.v) and evaluates the two syntactic hypotheses of
-    [C19_mutex] on it ([OK]).  Partial: the Go scheduler and memory model are not modelled
+    every run (coq/run/status_prog.v), one program per path of a call (panicking paths
+    included), and evaluates the two syntactic hypotheses of [C19_mutex_paths] on every one
+    of them ([OK]).  Partial: the Go scheduler and memory model are not modelled
     (sync/atomic operations are taken to be sequentially consistent), and what the node
     functions do to the graph is abstracted to the marker actions [Work] / [Handlers]. *)
 From incr Require Import Base Status StatusProofs.
@@ -28,6 +29,50 @@ Theorem C19_mutex : forall prog,
           wrote (threads st i) = false /\ status st' = status st).
 Proof. exact status_mutex. Qed.
 Print Assumptions C19_mutex.
+
+(** The same when every call follows a path of its own.  One call of the Go function takes
+    one of several straight-line paths -- the ordinary one, or one on which a node function
+    or a handler panics and the deferred functions run during the unwinding, the recover
+    block included; cmd/statusextract regenerates ALL of them.  A call is a thread; thread
+    [i] runs path [pf i], for any assignment [pf] of paths to threads. *)
+Theorem C19_mutex_paths : forall pf : nat -> program,
+  (forall i, good_path (pf i) = true) ->
+  forall (n : nat) (sch : schedule),
+    let st := execf n pf sch in
+    (forall i j, at_work (pf i) (threads st i) = true -> at_work (pf j) (threads st j) = true -> i = j)
+    /\ (forall i j, wrote (threads st i) = true -> wrote (threads st j) = true -> i = j)
+    /\ (forall i, at_work (pf i) (threads st i) = true -> wrote (threads st i) = true /\ status st <> 0)
+    /\ (forall i st', stepf n pf st i = (st', EvErr) ->
+          wrote (threads st i) = false /\ status st' = status st).
+Proof. exact status_mutex_paths. Qed.
+Print Assumptions C19_mutex_paths.
+
+(** ... in the form the regenerated file uses: a finite list of paths, all good ([OK]). *)
+Theorem C19_mutex_path_set : forall (paths : list program) (pf : nat -> program),
+  forallb good_path paths = true -> (forall i, In (pf i) paths) ->
+  forall (n : nat) (sch : schedule),
+    let st := execf n pf sch in
+    (forall i j, at_work (pf i) (threads st i) = true -> at_work (pf j) (threads st j) = true -> i = j)
+    /\ (forall i j, wrote (threads st i) = true -> wrote (threads st j) = true -> i = j)
+    /\ (forall i, at_work (pf i) (threads st i) = true -> wrote (threads st i) = true /\ status st <> 0)
+    /\ (forall i st', stepf n pf st i = (st', EvErr) ->
+          wrote (threads st i) = false /\ status st' = status st).
+Proof. exact status_mutex_path_set. Qed.
+Print Assumptions C19_mutex_path_set.
+
+(** A path on which user code (error / aborted handlers reached from a recover block, say)
+    runs AFTER the releasing store fails [good_path], and rightly so: while that call is in
+    its trailing handlers an ordinary second call is let in and runs node functions. *)
+Theorem C19_handlers_after_release_refuted :
+  good_path ordinary_path = true /\ good_path handlers_after_release = false /\
+  exists sch : schedule,
+    let pf := fun i => if Nat.eqb i 0 then handlers_after_release else ordinary_path in
+    let st := execf 2 pf sch in
+    at_work (pf 0%nat) (threads st 0%nat) = true /\
+    in_node_functions (pf 1%nat) (threads st 1%nat) = true /\
+    status st <> 0.
+Proof. exact handlers_after_release_refuted. Qed.
+Print Assumptions C19_handlers_after_release_refuted.
 
 (** The hypotheses are satisfiable (the compare-and-swap protocol, with or without a cheap
     look first), a caller does get in, and a second caller is turned away. *)
